@@ -26,11 +26,14 @@ COND_A = ('include("//defs.cond")\ninclude("local.cond")\n'
 COND_AB = 'run_experiment(name="t", run="./t.sh", deps=["//a:x"], parallelizable=True)\nrun_experiment(name="u", run="./u.sh", parallelizable=True)\ngroup(name="g", deps=[":t", ":u"])\n'
 FILES = {"COND": 'combine(name="top", deps=["//a/b:t", "//a:x"])\n', "a/COND": COND_A, "a/b/COND": COND_AB,
          "nocond/deep/readme": "x", "cond-out/a/.keep": "",
+         # directories whose path is a character-wise prefix of cond-out / of an archive destination without being an ancestor
+         "c/.keep": "", "cond/.keep": "", "back/.keep": "",
          # include() targets: the project-rooted one must come from the root from every cwd; look-alikes in other directories
          "defs.cond": 'WHERE = "project-wide"\n', "a/defs.cond": 'WHERE = "package-a"\n', "a/b/defs.cond": 'WHERE = "package-ab"\n',
          "nocond/defs.cond": 'WHERE = "nocond"\n', "a/local.cond": 'LOCAL = "a-local"\n', "local.cond": 'LOCAL = "root-local"\n',
          "a/b/local.cond": 'LOCAL = "ab-local"\n'}
-DIRS = [".", "a", "a/b", "nocond", "nocond/deep", "cond-out", "cond-out/a", "cond-out/a/zz.task.77", "cond-out/a/zz.task.77/sub"]
+DIRS = [".", "a", "a/b", "nocond", "nocond/deep", "cond-out", "cond-out/a", "cond-out/a/zz.task.77", "cond-out/a/zz.task.77/sub",
+        "c", "cond", "back"]
 BEH = {"//a:fail": {"status": 256 * 3}}
 
 
